@@ -1,1 +1,2 @@
 import SmtpV.Props.C04
+#print axioms SmtpV.Props.C04.C04_own_verdict
